@@ -71,6 +71,17 @@ func newScriptServer() *scriptServer {
 					if len(data) > 3 {
 						c.Write(data[:len(data)/2])
 					}
+				case "chunked":
+					// the same bytes, delivered in several segments with pauses in between
+					for len(data) > 0 {
+						n := 1 + len(data)/3
+						if n > len(data) {
+							n = len(data)
+						}
+						c.Write(data[:n])
+						data = data[n:]
+						time.Sleep(3 * time.Millisecond)
+					}
 				default:
 					c.Write(data)
 				}
@@ -156,7 +167,11 @@ func canonParsed(off uint32, bits [504]byte, newGCA glow.PublicKey, newID uint32
 // parseVia serves `stream` once to the real client parser and reports the outcome.
 func parseVia(c *client.Client, ss *scriptServer, stream []byte, sk, gk glow.PublicKey) (string, int64) {
 	for try := 0; try < 3; try++ {
-		ss.set("reply", stream)
+		if len(stream) > 100 && (len(stream)+int(stream[len(stream)-1]))%3 == 0 {
+			ss.set("chunked", stream) // the same bytes in several TCP segments
+		} else {
+			ss.set("reply", stream)
+		}
 		t0 := time.Now().Unix()
 		off, bits, newGCA, newID, servers, err := c.VerifServerSync(client.GCAServer{Location: myIP, TcpPort: ss.port()}, sk, gk)
 		if time.Now().Unix() != t0 {
